@@ -130,18 +130,11 @@ func (e *scaleEnv) expOfAmount(x ast.Expr) (lin, bool) {
 			if !ok1 || !ok2 {
 				return nil, false
 			}
-			if a.eq(b) {
-				return a, true
-			}
 			op := "max"
 			if fn.Name() == "RescaleDown" {
 				op = "min"
 			}
-			x, y := a.String(), b.String()
-			if y < x {
-				x, y = y, x
-			}
-			return lin{op + "(" + x + "," + y + ")": 1}, true
+			return extremum(op, a, b), true
 		}
 	case *ast.CompositeLit:
 		if _, ef, ok := e.literal(v); ok {
@@ -208,7 +201,15 @@ func (e *scaleEnv) expValue(x ast.Expr) (lin, bool) {
 		}
 		if id, ok := v.Fun.(*ast.Ident); ok && (id.Name == "max" || id.Name == "min") {
 			if _, isB := e.info.Uses[id].(*types.Builtin); isB {
-				return lin{types.ExprString(v): 1}, true // one common, otherwise unknown, exponent
+				var forms []lin
+				for _, a := range v.Args {
+					f, ok := e.expValue(a)
+					if !ok {
+						return lin{types.ExprString(v): 1}, true // one common, otherwise unknown, exponent
+					}
+					forms = append(forms, f)
+				}
+				return extremum(id.Name, forms...), true
 			}
 		}
 	case *ast.BinaryExpr:
@@ -283,6 +284,18 @@ func (e *scaleEnv) quantity(x ast.Expr) (lin, bool) {
 						if rv := recvVar(cfd); rv != nil {
 							sub.amtExp[rv] = rexp
 						}
+						// exponent-typed parameters stand for what was passed
+						csig := fn.Type().(*types.Signature)
+						for i := 0; i < csig.Params().Len() && i < len(v.Args); i++ {
+							pv := csig.Params().At(i)
+							if isAmountType(pv.Type()) {
+								if af, ok := e.expOfAmount(v.Args[i]); ok {
+									sub.amtExp[pv] = af
+								}
+							} else if af, ok := e.expValue(v.Args[i]); ok {
+								sub.valForm[pv] = af
+							}
+						}
 						if e.buf == nil {
 							e.buf = &obBuf{m: map[string]*bufOb{}}
 						}
@@ -310,6 +323,52 @@ func (e *scaleEnv) quantity(x ast.Expr) (lin, bool) {
 		}
 	}
 	return nil, false
+}
+
+// extremum is the canonical form of max / min over exponent forms: nested
+// extrema of the same kind are flattened, operands de-duplicated and sorted, a
+// single operand stands for itself.
+func extremum(op string, forms ...lin) lin {
+	set := map[string]lin{}
+	var add func(f lin)
+	add = func(f lin) {
+		if len(f) == 1 {
+			for k, c := range f {
+				if c == 1 && strings.HasPrefix(k, op+"(") && strings.HasSuffix(k, ")") {
+					// split the top-level operands
+					inner := k[len(op)+1 : len(k)-1]
+					depth, start := 0, 0
+					for i := 0; i <= len(inner); i++ {
+						if i == len(inner) || (inner[i] == ',' && depth == 0) {
+							set[inner[start:i]] = lin{inner[start:i]: 1}
+							start = i + 1
+							continue
+						}
+						switch inner[i] {
+						case '(':
+							depth++
+						case ')':
+							depth--
+						}
+					}
+					return
+				}
+			}
+		}
+		set[f.String()] = f
+	}
+	for _, f := range forms {
+		add(f)
+	}
+	var ks []string
+	for k := range set {
+		ks = append(ks, k)
+	}
+	sort.Strings(ks)
+	if len(ks) == 1 {
+		return set[ks[0]]
+	}
+	return lin{op + "(" + strings.Join(ks, ",") + ")": 1}
 }
 
 func opName(t token.Token) string {
